@@ -184,8 +184,10 @@ theorem compiledDecision_eq (S : Sem δ) (hg : ∀ n, S.guard n = true) (p : Pro
   | none => simp [hl] at h
   | some es =>
     simp only [hl] at h
-    rw [scan_lowerProg S hg fb p es hl hne must] at h
-    exact (Option.some.inj h).symm
+    split at h
+    · exact absurd h (by simp)
+    · rw [scan_lowerProg S hg fb p es hl hne must] at h
+      exact (Option.some.inj h).symm
 
 /-! ## every stage keeps "each rule has a function" -/
 
